@@ -416,6 +416,37 @@ func runDeepFunctionDescends(rr *RuleRun) {
 	for _, d := range deep {
 		others[d.obj] = true
 	}
+	// helpers that (transitively) call a deep function take part in the recursion: a branch that delegates to
+	// one of them descends through it
+	for changed := true; changed; {
+		changed = false
+		for _, pkg := range allPkgs {
+			info := c.Info(pkg)
+			for _, fd := range c.SortedDecls(pkg) {
+				self, _ := info.Defs[fd.Name].(*types.Func)
+				if self == nil || others[self] || fd.Body == nil {
+					continue
+				}
+				calls := false
+				ast.Inspect(fd.Body, func(n ast.Node) bool {
+					if call, ok := n.(*ast.CallExpr); ok && !calls {
+						if f := callee(info, call); f != nil && others[f] && f.Pkg() == self.Pkg() {
+							calls = true
+						}
+					}
+					return !calls
+				})
+				if calls && self.Pkg() != nil {
+					// only unexported helpers: an exported entry point that happens to call a deep function is not
+					// part of the recursion
+					if !self.Exported() {
+						others[self] = true
+						changed = true
+					}
+				}
+			}
+		}
+	}
 	for _, d := range deep {
 		info := c.Info(d.pkg)
 		fd := d.fd
@@ -979,4 +1010,484 @@ func runGuardOnStaleType(rr *RuleRun) {
 			}
 		}
 	})
+}
+
+// ---------------------------------------------------------------------------
+// C10.null-check-independent-of-type
+
+func init() {
+	register(&Rule{
+		ID: "C10.null-check-independent-of-type", Prop: "C10", Also: []string{"C11"}, Floor: 1, Controls: 0,
+		Doc: "in package function the rejection of a null argument (an ArgError returned under a condition X.IsNull()) does not depend on the argument's type: it is not reached only on paths that already decided whether the argument's type is the dynamic pseudo-type or conforms to the parameter's type — an untyped null (a null of the dynamic type) is null too, and a null check placed behind the dynamic-type branch lets it through to the callbacks of a parameter that does not allow nulls",
+		Run: runNullCheckIndependentOfType,
+	})
+}
+
+func runNullCheckIndependentOfType(rr *RuleRun) {
+	c := rr.Ctx
+	pkg := "cty/function"
+	info := c.Info(pkg)
+	mentionsTypeDecision := func(e ast.Expr) bool {
+		found := false
+		ast.Inspect(e, func(n ast.Node) bool {
+			switch x := n.(type) {
+			case *ast.SelectorExpr:
+				if x.Sel.Name == "DynamicPseudoType" || x.Sel.Name == "TestConformance" || x.Sel.Name == "AllowDynamicType" {
+					found = true
+				}
+			}
+			return !found
+		})
+		return found
+	}
+	for _, fd := range c.SortedDecls(pkg) {
+		if fd.Body == nil {
+			continue
+		}
+		var cf *CondFacts
+		inspectNoLit(fd.Body, func(n ast.Node) bool {
+			ret, ok := n.(*ast.ReturnStmt)
+			if !ok {
+				return true
+			}
+			isArgErr := false
+			for _, r := range ret.Results {
+				if call, ok := ast.Unparen(r).(*ast.CallExpr); ok && isCall(info, call, pkg+".NewArgErrorf", pkg+".NewArgError") {
+					isArgErr = true
+				}
+			}
+			if !isArgErr {
+				return true
+			}
+			if cf == nil {
+				cf = c.CondFacts(fd.Body, info, nil)
+			}
+			isNullCond := func(cond ast.Expr, truth bool) bool {
+				call, ok := ast.Unparen(cond).(*ast.CallExpr)
+				if !ok || !truth {
+					return false
+				}
+				se, ok := call.Fun.(*ast.SelectorExpr)
+				return ok && se.Sel.Name == "IsNull" && isCtyValue(info.TypeOf(se.X))
+			}
+			if !cf.HoldsAt(ret, isNullCond) {
+				return true
+			}
+			key := fmt.Sprintf("%s.%s/null rejection %s", pkg, declName(fd), trunc(exprStr(ret.Results[len(ret.Results)-1]), 50))
+			if cf.HoldsAt(ret, func(cond ast.Expr, truth bool) bool { return mentionsTypeDecision(cond) }) {
+				rr.Violation(key, ret.Pos(), "the rejection of a null argument is reached only after a decision on the argument's type (dynamic pseudo-type / conformance): a null of the dynamic type takes the other branch and is never rejected, so the callbacks of a parameter that does not allow nulls receive a null")
+				return true
+			}
+			rr.OK(key, ret.Pos(), "the null check does not depend on the argument's type")
+			return true
+		})
+	}
+}
+
+// ---------------------------------------------------------------------------
+// C10.param-flags-not-rewritten
+
+func init() {
+	register(&Rule{
+		ID: "C10.param-flags-not-rewritten", Prop: "C10", Also: []string{"C04", "C12"}, Floor: 1, Controls: 0,
+		Doc: "package function never rewrites the contract of a parameter: no assignment targets the Type, AllowNull, AllowUnknown, AllowDynamicType or AllowMarked field of a function.Parameter (the flags are set in Spec literals by the function's author only; wrappers such as Unpredictable and WithNewDescriptions may change descriptions and the implementation) — a wrapper that flips a flag makes Call skip the unmarking, null or unknown handling the original function was declared with",
+		Run: runParamFlagsNotRewritten,
+	})
+}
+
+func runParamFlagsNotRewritten(rr *RuleRun) {
+	c := rr.Ctx
+	pkg := "cty/function"
+	info := c.Info(pkg)
+	contract := map[string]bool{"Type": true, "AllowNull": true, "AllowUnknown": true, "AllowDynamicType": true, "AllowMarked": true}
+	n := 0
+	for _, fd := range c.SortedDecls(pkg) {
+		if fd.Body == nil {
+			continue
+		}
+		ast.Inspect(fd.Body, func(m ast.Node) bool {
+			var lhs []ast.Expr
+			switch s := m.(type) {
+			case *ast.AssignStmt:
+				lhs = s.Lhs
+			case *ast.IncDecStmt:
+				lhs = []ast.Expr{s.X}
+			}
+			for _, l := range lhs {
+				se, ok := ast.Unparen(l).(*ast.SelectorExpr)
+				if !ok {
+					continue
+				}
+				sel := info.Selections[se]
+				if sel == nil || sel.Kind() != types.FieldVal {
+					continue
+				}
+				if namedTypeNoPtr(sel.Recv()) != "cty/function.Parameter" {
+					continue
+				}
+				n++
+				key := fmt.Sprintf("%s.%s/%s =", pkg, declName(fd), exprStr(se))
+				if contract[se.Sel.Name] {
+					rr.Violation(key, l.Pos(), fmt.Sprintf("the %s field of a function.Parameter is assigned here: the declared contract of an existing function's parameter is rewritten, so the derived function is called without the unmarking / null / unknown / type handling its specification promises", se.Sel.Name))
+				} else {
+					rr.OKTrivial(key, l.Pos(), "not a contract field")
+				}
+			}
+			return true
+		})
+	}
+	if n == 0 {
+		rr.OKTrivial(pkg+"/no-parameter-field-writes", token.NoPos, "no field of a Parameter is assigned anywhere in the package")
+	}
+}
+
+// ---------------------------------------------------------------------------
+// C16.ext-codes-complete
+
+func init() {
+	register(&Rule{
+		ID: "C16.ext-codes-complete", Prop: "C16", Also: []string{"C17"}, Floor: 2, Controls: 0,
+		Doc: "the MessagePack decoder recognises an unknown value by the whole extension family: a function of package msgpack that looks at a peeked code either asks msgpcode.IsExt or, if it compares with individual extension codes, compares with every constant of package msgpcode named FixExt<n> / Ext<n> — the encoder leaves the choice of the extension header to the library (EncodeExtHeader picks fixext1/2/4/8/16 or ext8/16/32 by payload length), so a reader that knows only some of the codes fails on the writer's own output for payloads of the other lengths",
+		Run: runExtCodesComplete,
+	})
+}
+
+func runExtCodesComplete(rr *RuleRun) {
+	c := rr.Ctx
+	pkg := "cty/msgpack"
+	info := c.Info(pkg)
+	extName := regexp.MustCompile(`^(Fix)?Ext[0-9]+$`)
+	// the family, read from the library package itself
+	var family []string
+	var codePkg *types.Package
+	for _, imp := range c.Pkg(pkg).Types.Imports() {
+		if strings.HasSuffix(imp.Path(), "/msgpcode") {
+			codePkg = imp
+		}
+	}
+	if codePkg == nil {
+		rr.Broken("stale anchor: package msgpack no longer imports msgpcode")
+		return
+	}
+	for _, nm := range codePkg.Scope().Names() {
+		switch codePkg.Scope().Lookup(nm).(type) {
+		case *types.Const, *types.Var:
+		default:
+			continue
+		}
+		if extName.MatchString(nm) {
+			family = append(family, nm)
+		}
+	}
+	if len(family) < 8 {
+		rr.Broken(fmt.Sprintf("msgpcode declares %d extension codes, fewer than the 8 of the MessagePack specification", len(family)))
+		return
+	}
+	for _, fd := range c.SortedDecls(pkg) {
+		if fd.Body == nil {
+			continue
+		}
+		used := map[string]token.Pos{}
+		isExtCalls := 0
+		ast.Inspect(fd.Body, func(n ast.Node) bool {
+			switch x := n.(type) {
+			case *ast.CallExpr:
+				if f := callee(info, x); f != nil && f.Pkg() == codePkg && f.Name() == "IsExt" {
+					isExtCalls++
+					rr.OK(fmt.Sprintf("%s.%s/IsExt", pkg, declName(fd)), x.Pos(), "the whole extension family is asked for")
+				}
+			case *ast.SelectorExpr:
+				if o := info.Uses[x.Sel]; o != nil && o.Pkg() == codePkg && o.Parent() == codePkg.Scope() && extName.MatchString(o.Name()) {
+					if _, seen := used[o.Name()]; !seen {
+						used[o.Name()] = x.Pos()
+					}
+				}
+			}
+			return true
+		})
+		if len(used) == 0 {
+			continue
+		}
+		key := fmt.Sprintf("%s.%s/extension codes", pkg, declName(fd))
+		var missing []string
+		var first token.Pos
+		for _, nm := range family {
+			if p, ok := used[nm]; !ok {
+				missing = append(missing, nm)
+			} else if !first.IsValid() || p < first {
+				first = p
+			}
+		}
+		switch {
+		case len(missing) == 0:
+			rr.OK(key, first, "every extension code of msgpcode is compared with")
+		case isExtCalls > 0:
+			rr.Assumed(key, first, "some extension codes are singled out, and IsExt is asked as well")
+		default:
+			rr.Violation(key, first, fmt.Sprintf("the function compares a code with individual extension codes but not with %s (and does not ask msgpcode.IsExt): the encoder's extension header is chosen by the library from the payload length, so an unknown value whose refinements encode to one of the other lengths is not recognised and is handed to the decoder of ordinary values", strings.Join(missing, ", ")))
+		}
+	}
+}
+
+// ---------------------------------------------------------------------------
+// C18.nil-before-empty
+
+func init() {
+	register(&Rule{
+		ID: "C18.nil-is-null", Prop: "C18", Floor: 5, Controls: 0,
+		Doc: "in package gocty a nil Go slice or map becomes null, never a value: inside a case of a switch on X.Kind() that is labelled with nilable kinds only (reflect.Slice, reflect.Map), every successful return (nil error) of something other than cty.NullVal lies on paths where X.IsNil() was tested and found false — an emptiness shortcut (Len() == 0) placed before the nil test turns a nil map into an empty one, so nil does not survive the round trip",
+		Run: runNilIsNull,
+	})
+}
+
+func runNilIsNull(rr *RuleRun) {
+	c := rr.Ctx
+	pkg := "cty/gocty"
+	info := c.Info(pkg)
+	nilable := map[string]bool{"Slice": true, "Map": true}
+	for _, fd := range c.SortedDecls(pkg) {
+		if fd.Body == nil {
+			continue
+		}
+		var cf *CondFacts
+		inspectNoLit(fd.Body, func(n ast.Node) bool {
+			sw, ok := n.(*ast.SwitchStmt)
+			if !ok || sw.Tag == nil {
+				return true
+			}
+			tag, ok := ast.Unparen(sw.Tag).(*ast.CallExpr)
+			if !ok {
+				return true
+			}
+			se, ok := tag.Fun.(*ast.SelectorExpr)
+			if !ok || se.Sel.Name != "Kind" || namedTypeNoPtr(info.TypeOf(se.X)) != "reflect.Value" {
+				return true
+			}
+			subj := objOf(info, se.X)
+			if subj == nil {
+				return true
+			}
+			for _, cl := range sw.Body.List {
+				cc := cl.(*ast.CaseClause)
+				if len(cc.List) == 0 {
+					continue
+				}
+				all := true
+				var label []string
+				for _, e := range cc.List {
+					s, ok := ast.Unparen(e).(*ast.SelectorExpr)
+					if !ok || !nilable[s.Sel.Name] {
+						all = false
+					} else {
+						label = append(label, s.Sel.Name)
+					}
+				}
+				if !all {
+					continue
+				}
+				key := fmt.Sprintf("%s.%s/case reflect.%s", pkg, declName(fd), strings.Join(label, ","))
+				bad := false
+				nret := 0
+				for _, st := range cc.Body {
+					inspectNoLit(st, func(m ast.Node) bool {
+						ret, ok := m.(*ast.ReturnStmt)
+						if !ok || len(ret.Results) < 2 || bad {
+							return true
+						}
+						if !isNilIdent(info, ret.Results[len(ret.Results)-1]) {
+							return true // an error return
+						}
+						if call, ok := ast.Unparen(ret.Results[0]).(*ast.CallExpr); ok && isCall(info, call, "cty.NullVal") {
+							return true
+						}
+						if !isCtyValue(info.TypeOf(ret.Results[0])) {
+							return true
+						}
+						nret++
+						if cf == nil {
+							cf = c.CondFacts(fd.Body, info, nil)
+						}
+						if !cf.Located(ret) {
+							return true
+						}
+						if !cf.HoldsAt(ret, func(cond ast.Expr, truth bool) bool { return !truth && methodCond(info, cond, subj, "IsNil") }) {
+							bad = true
+							rr.Violation(key, ret.Pos(), fmt.Sprintf("this successful return of %s is reached without %s.IsNil() having been tested (and found false): a nil Go %s takes this path and becomes a non-null value, so nil does not correspond to null and the round trip turns nil into an empty collection", trunc(exprStr(ret.Results[0]), 40), subj.Name(), strings.ToLower(strings.Join(label, "/"))))
+						}
+						return true
+					})
+				}
+				if !bad {
+					rr.OK(key, cc.Pos(), fmt.Sprintf("%d successful non-null return(s), each after the nil test", nret))
+				}
+			}
+			return true
+		})
+	}
+}
+
+// ---------------------------------------------------------------------------
+// C17.capped-hint-is-capacity-only
+
+func init() {
+	register(&Rule{
+		ID: "C17.capped-hint-is-capacity-only", Prop: "C17", Also: []string{"C16"}, Floor: 1, Controls: 0,
+		Doc: "a capped allocation hint is used as a capacity, never as a length: where a decoder sizes a slice with the result of a clamping helper (a function of the package that returns its integer parameter on one path and a constant on another, such as preallocLen) the result is the capacity argument of make (or the size hint of a map), and the slice is filled by append — used as the length, the slice is shorter than the announced element count for every input above the cap, and the indexed fill that goes with it runs off its end",
+		Run: runCappedHintIsCapacityOnly,
+	})
+}
+
+func runCappedHintIsCapacityOnly(rr *RuleRun) {
+	c := rr.Ctx
+	for _, pkg := range []string{"cty/msgpack", "cty/json"} {
+		info := c.Info(pkg)
+		// clamping helpers
+		clamps := map[*types.Func]bool{}
+		for _, fd := range c.SortedDecls(pkg) {
+			if fd.Body == nil || fd.Recv != nil || fd.Type.Params.NumFields() != 1 || fd.Type.Results.NumFields() != 1 {
+				continue
+			}
+			p := paramIdent(fd, 0)
+			if p == nil {
+				continue
+			}
+			po := info.Defs[p]
+			if b, ok := po.Type().Underlying().(*types.Basic); !ok || b.Info()&types.IsInteger == 0 {
+				continue
+			}
+			retParam, retConst := false, false
+			inspectNoLit(fd.Body, func(n ast.Node) bool {
+				if ret, ok := n.(*ast.ReturnStmt); ok && len(ret.Results) == 1 {
+					if objOf(info, ret.Results[0]) == po {
+						retParam = true
+					} else if tv, ok := info.Types[ret.Results[0]]; ok && tv.Value != nil {
+						retConst = true
+					}
+				}
+				return true
+			})
+			if retParam && retConst {
+				if f, ok := info.Defs[fd.Name].(*types.Func); ok {
+					clamps[f] = true
+				}
+			}
+		}
+		if len(clamps) == 0 {
+			rr.OKTrivial(pkg+"/no clamping helper", token.NoPos, "the package has no clamping helper")
+			continue
+		}
+		for _, fd := range c.SortedDecls(pkg) {
+			if fd.Body == nil {
+				continue
+			}
+			ast.Inspect(fd.Body, func(n ast.Node) bool {
+				mk, ok := n.(*ast.CallExpr)
+				if !ok || !isBuiltin(info, mk, "make") || len(mk.Args) < 2 {
+					return true
+				}
+				for i, a := range mk.Args[1:] {
+					call, ok := ast.Unparen(a).(*ast.CallExpr)
+					if !ok {
+						continue
+					}
+					f := callee(info, call)
+					if f == nil || !clamps[f] {
+						continue
+					}
+					key := fmt.Sprintf("%s.%s/make(%s, …%s…)", pkg, declName(fd), exprStr(mk.Args[0]), f.Name())
+					_, isSlice := info.TypeOf(mk.Args[0]).Underlying().(*types.Slice)
+					if isSlice && i == 0 {
+						rr.Violation(key, mk.Pos(), fmt.Sprintf("the capped hint %s is the LENGTH of the slice made here: for an announced count above the cap the slice is shorter than the number of elements the decoder goes on to read, so filling it by index panics (index out of range) on a well-formed document", exprStr(a)))
+					} else {
+						rr.OK(key, mk.Pos(), "capacity / size hint only")
+					}
+				}
+				return true
+			})
+		}
+	}
+}
+
+// ---------------------------------------------------------------------------
+// C16.dynamic-wrapper-writes-type
+
+func init() {
+	register(&Rule{
+		ID: "C16.dynamic-wrapper-writes-type", Prop: "C16", Also: []string{"C15"}, Floor: 2, Controls: 0,
+		Doc: "the encoders of a value in a dynamically-typed position always write its type: in dynamicVal.MarshalMsgpack and in the JSON marshalDynamic every successful return (nil error) is preceded on every path by the serialisation of the value's type (Type.MarshalJSON / MarshalType) and by a call that writes the serialised type to the output — a shortcut that emits the value alone (an unknown value, a null) leaves the decoder without the type, and the value comes back as a value of the dynamic pseudo-type with its type and refinements lost",
+		Run: runDynamicWrapperWritesType,
+	})
+}
+
+func runDynamicWrapperWritesType(rr *RuleRun) {
+	c := rr.Ctx
+	for _, u := range []struct{ pkg, fn string }{{"cty/msgpack", "dynamicVal.MarshalMsgpack"}, {"cty/json", "marshalDynamic"}} {
+		fd := rr.MustDecl(u.pkg, u.fn)
+		if fd == nil {
+			continue
+		}
+		info := c.Info(u.pkg)
+		g := c.CFG(fd.Body, info)
+		// the serialised type
+		var tvar types.Object
+		var tdef ast.Node
+		inspectNoLit(fd.Body, func(n ast.Node) bool {
+			as, ok := n.(*ast.AssignStmt)
+			if !ok || len(as.Rhs) != 1 || tvar != nil {
+				return true
+			}
+			call, ok := ast.Unparen(as.Rhs[0]).(*ast.CallExpr)
+			if !ok {
+				return true
+			}
+			f := callee(info, call)
+			if f == nil || (f.Name() != "MarshalJSON" && f.Name() != "MarshalType") {
+				return true
+			}
+			if id, ok := as.Lhs[0].(*ast.Ident); ok {
+				tvar = objOf(info, id)
+				tdef = as
+			}
+			return true
+		})
+		key := u.pkg + "." + u.fn
+		if tvar == nil {
+			rr.Violation(key+"/type", fd.Pos(), "the function never serialises the value's type (no call of Type.MarshalJSON / MarshalType whose result is kept): the dynamic wrapper is written without the type the decoder needs")
+			continue
+		}
+		var writes []ast.Node
+		inspectNoLit(fd.Body, func(n ast.Node) bool {
+			call, ok := n.(*ast.CallExpr)
+			if !ok || call.Pos() < tdef.End() {
+				return true
+			}
+			for _, a := range call.Args {
+				if mentionsObj(info, a, tvar) {
+					writes = append(writes, call)
+				}
+			}
+			return true
+		})
+		for _, ret := range g.Returns() {
+			if len(ret.Results) == 0 {
+				continue
+			}
+			last := ret.Results[len(ret.Results)-1]
+			if t := info.TypeOf(last); t != nil && isErrorType(t) && !isNilIdent(info, last) {
+				continue // a failure: an error is returned
+			}
+			k := fmt.Sprintf("%s/return %s", key, trunc(exprStr0(ret), 30))
+			ok := false
+			for _, w := range writes {
+				if g.Dominates(w, ret) {
+					ok = true
+				}
+			}
+			if ok {
+				rr.OK(k, ret.Pos(), "the serialised type was written on every path to this return")
+			} else {
+				rr.Violation(k, ret.Pos(), fmt.Sprintf("this successful return is not preceded on every path by a call that writes the serialised type (%s): some values are emitted without their type, so the decoder, which expects the wrapper, loses the type (an unknown value comes back as cty.DynamicVal without its type constraint and refinements) or fails on the encoder's own output", tvar.Name()))
+			}
+		}
+	}
 }
